@@ -279,6 +279,12 @@ mut("C17", "projp-diagonal-weight", E + "Models/_phasefield.py", "        dvalp 
 same("C17", "eigen-plane-direction-other-axis", E + "Models/_phasefield.py", "            k = np.argmax(np.linalg.norm(P, axis=-2), axis=-1)\n", "            k = np.argmax(np.linalg.norm(P, axis=-1), axis=-1)\n")
 mut("C17", "arccos-unclipped", E + "Models/_phasefield.py", "            np.clip(arg, -1.0, 1.0, out=arg)\n", "", "R17.14")
 same("C17", "arccos-clip-inline", E + "Models/_phasefield.py", "            np.clip(arg, -1.0, 1.0, out=arg)\n\n            # Lode's angle such that 0 <= theta <= pi/3\n            theta = 1 / 3 * np.arccos(arg)", "            # Lode's angle such that 0 <= theta <= pi/3\n            theta = 1 / 3 * np.arccos(np.clip(arg, -1.0, 1.0))")
+mut("C11", "integer-parameters-kept", E + "Utilities/_params.py", "        if isinstance(value, np.ndarray) and value.dtype.kind in \"iu\":\n", "        if False:\n", "R11.10")
+mut("C11", "ti-dtype-from-kt-only", E + "Models/Elastic/_laws.py", "        sum = El + Et + Gl + vl + vt\n        dtype = object if isinstance(sum, np.ndarray) else float", "        dtype = object if isinstance(kt, np.ndarray) else float", "R11.11")
+same("C11", "ti-dtype-any-parameter", E + "Models/Elastic/_laws.py", "        sum = El + Et + Gl + vl + vt\n        dtype = object if isinstance(sum, np.ndarray) else float", "        dtype = object if any(isinstance(p, np.ndarray) for p in (El, Et, Gl, vl, vt)) else float")
+mut("C09", "phasefield-volume-load-default", E + "Simulations/_phasefield.py", "    def add_volumeLoad(\n        self,\n        nodes: _types.IntArray,\n        values: list,\n        unknowns: list[str],\n        problemType=ProblemTypes.elastic,", "    def add_volumeLoad(\n        self,\n        nodes: _types.IntArray,\n        values: list,\n        unknowns: list[str],\n        problemType=None,", "R9.14")
+mut("C15", "weakforms-velocity-unchecked", E + "Simulations/_weakforms.py", '            a = results["a"] if "a" in results else np.zeros_like(u)', '            a = results.get("a")', "R15.14")
+mut("C05", "scheme-stored-before-validation", E + "Simulations/_simu.py", "        assert dt > 0, \"Time increment must be > 0\"\n\n        # nothing is stored before the arguments are accepted\n        self.__algo = AlgoType.parabolic\n", "        self.__algo = AlgoType.parabolic\n        assert dt > 0, \"Time increment must be > 0\"\n", "R5.13")
 mut("C18", "op-no-geometric-tangent", E + "FEM/Operators/NonLinear.py", "    return A_lin + A_geo, residual_e", "    return A_lin, residual_e", "R18.12")
 mut("C18", "op-reorder-transposes", E + "FEM/Operators/NonLinear.py", "            reordered[i] = array[:, ri, rj]", "            reordered[i] = array[:, rj, ri]", "R18.12")
 mut("C18", "op-kv-tangent-swapped", E + "FEM/Operators/NonLinear.py", "    A_mat = material.eta * einsum(subscripts, wJ_e_pg, B_e_pg, Beta_e_pg)", "    A_mat = material.eta * einsum(subscripts, wJ_e_pg, Beta_e_pg, B_e_pg)", "R18.12")
